@@ -24,7 +24,7 @@ func boundaryYears() []int {
 	}
 	add(1, 25)
 	add(234, 242)
-	add(1580, 1584)
+	add(1570, 1584)
 	add(1599, 1601)
 	add(1643, 1647)
 	add(1899, 1901)
@@ -125,6 +125,26 @@ func listStrings(l *list.List) []string {
 		out = append(out, fmt.Sprint(e.Value))
 	}
 	return out
+}
+
+// historyTouch makes "a later year was used first" part of the history of a year-case: before the
+// judged (ascending) walk of an odd year y, every zero-argument accessor of Solar and Lunar is called on a few
+// dates of the neighbouring years and the results are discarded. Process-wide or first-write-wins memos keyed
+// too coarsely then poison the walk that follows.
+func historyTouch(w *W, y int) {
+	if y%2 == 0 {
+		return
+	}
+	for _, d := range [][3]int{{y + 1, 1, 10}, {y + 1, 2, 20}, {y + 1, 7, 1}, {y - 1, 12, 25}, {y + 2, 3, 3}, {y + 1, 11, 24}} {
+		if d[0] < minYear || d[0] > maxYear {
+			continue
+		}
+		w.Curf("history touch %04d-%02d-%02d before year %d", d[0], d[1], d[2], y)
+		s := calendar.NewSolar(d[0], d[1], d[2], 23, 30, 0)
+		digest1(s)
+		digest1(s.GetLunar())
+	}
+	w.Count("cases-with-later-year-history", 1)
 }
 
 func absInt(a int) int {
